@@ -515,9 +515,12 @@ func trunc(s string, n int) string {
 // "exactly that block id" and "the set's total power" rest on three helpers the verifiers call:
 // (a) BlockID.Equals is full equality (hash and part-set header; header equality is total and hash);
 // (b) the cached total power is the clipped sum of the members and never above MaxTotalVotingPower — the
-//     threshold total*2/3 is computed without overflow check and wraps negative above MaxInt64/2;
+//
+//	threshold total*2/3 is computed without overflow check and wraps negative above MaxInt64/2;
+//
 // (c) a wrapper that is handed a block id and a commit verifies the commit for *that* id, not for the id
-//     the commit itself carries.
+//
+//	the commit itself carries.
 func init() {
 	register("C07", "R7", "K1", "block-id equality is full equality; the cached total power is bounded; verifier wrappers pass the block id they were given", 7, func(c *Ctx) {
 		w := c.W
